@@ -63,6 +63,9 @@ def log(msg):
 # ------------------------------------------------------------------------------------------------------------
 # build steps
 
+EXTRACTOR_BUILT = False
+
+
 def build_go(tags=""):
     """Rebuild harness and extractor against /repo's current working tree. Returns (ok, output)."""
     with Lock("gobuild"):
@@ -76,6 +79,8 @@ def build_go(tags=""):
         outs.append(out)
         if rc != 0:
             return False, "\n".join(outs)
+        global EXTRACTOR_BUILT
+        EXTRACTOR_BUILT = True
         cmd = ["go", "build"] + (["-tags", tags] if tags else []) + ["-o", os.path.join(BIN, "nibiru-harness"),
                                                                     "./cmd/nibiru-harness"]
         rc, out, dt2 = sh(cmd, cwd=HARNESS, env=go_env(), timeout=3000)
@@ -323,8 +328,9 @@ def run_check(pid, tier, seed, replay):
     if not ok:
         failures.append({"kind": "build", "name": "go build of harness against /repo", "detail": out[-3000:]})
 
-    # 2. T1 facts
-    if ok:
+    # 2. T1 facts (the extractor parses source: it does not need the harness — or /repo — to compile; stale facts would
+    #    otherwise be blamed for a failure that is only a build error)
+    if ok or EXTRACTOR_BUILT:
         fok, fout, facts_digests = extract_facts()
         if not fok:
             failures.append({"kind": "facts", "name": "extractor failed", "detail": fout[-3000:]})
